@@ -271,8 +271,12 @@ class Live:
         self.dead = False
 
     def cmd(self, line, timeout=60):
-        self.p.stdin.write(line + "\n")
-        self.p.stdin.flush()
+        try:
+            self.p.stdin.write(line + "\n")
+            self.p.stdin.flush()
+        except BrokenPipeError:
+            self.dead = True
+            raise core.Infra("probe_session died (rc %s) before %r: %s" % (self.p.poll(), line[:50], core.san_report(self.p.stderr.read())[:3000]))
         word = line.split()[1] if line.startswith("@") else line.split()[0]
         if word in self.SILENT:
             return None
